@@ -34,7 +34,7 @@ def describe(tier):
         nontrivial='the position lies strictly inside at least one element.',
         bounds=b,
         assumptions=['every checked call on a document with attributes is preceded by the same call on a same-length document with other '
-                     'attribute text at the same offsets', 'the checked calls at every fourth position are preceded by %d x 3 calls on ill-formed documents in the other '
+                     'attribute text at the same offsets', 'the checked calls at every eighth position are preceded by %d x 3 calls on ill-formed documents in the other '
                      'mode: history must not matter' % len(POISON), 'balanced_inward exactly at element boundaries and ill-formed documents are left unspecified (C16 covers totality)'],
         explanation='Every (document, position) is given to the real matcher functions and compared with the generator ground truth; '
                     'the enumeration count is cross-checked against the closed recurrence for forests.',
@@ -54,6 +54,8 @@ def docs(tier):
         for f in D.forests(n):
             if D.uses_body(f):
                 for v in range(1, len(D.BODY_VARIANTS)):
+                    if v == 3 and not D.uses_kind(f, 'script'):
+                        continue              # the fourth variant only changes script elements
                     yield f, v
 
 
@@ -80,7 +82,7 @@ def exp_tuple(e):
     return (e['name'], tuple(e['open']), tuple(e['close']) if e['close'] else None)
 
 
-# calls on ill-formed documents made before the checked calls at every fourth position: nothing of them may survive
+# calls on ill-formed documents made before the checked calls at every eighth position: nothing of them may survive
 POISON = [('<div a="', 3), ('<p><!-- x', 5), ('<a><script>if (a<b) <i>', 14), ('</b><c', 2), ('<![CDATA[ <x', 10), ("<e f='>", 4)]
 
 
@@ -93,16 +95,29 @@ def poison(xml):
                 pass
 
 
+_VARIANT = {}
+
+
+def variant_of(text, elements):
+    v = _VARIANT.get(text)
+    if v is None:
+        if len(_VARIANT) > 64:
+            _VARIANT.clear()
+        v = _VARIANT[text] = D.attribute_variant(text, elements) if any(e['attrs'] for e in elements) else ''
+    return v
+
+
 def check_pos(text, elements, xml, p):
     """-> list of (class, detail)"""
     bad = []
     opt = {'xml': xml}
-    if p % 4 == 0:
+    if p % 8 == 0:
         poison(xml)
-    if any(e['attrs'] for e in elements):
+    variant = variant_of(text, elements)
+    if variant:
         # the same call on a document of the same length with the same tags at the same offsets but other attribute text
         try:
-            H.match(D.attribute_variant(text, elements), p, opt)
+            H.match(variant, p, opt)
         except Exception:
             pass
     enc = D.enclosing(elements, p)
